@@ -42,13 +42,17 @@ def run(chunks, reader=None, states: set | None = None):
         except Exception as ex:
             err = (ex, i)
             break
+        poisoned = False
         for m in msgs:
             if m is POISON:
                 out.append({"bytes": None, "valid": None, "payload": None, "type": None, "exceptions": {}, "poison": True})
                 kept.append(None)
-                continue
+                poisoned = True
+                break
             out.append(observe(m))
             kept.append(m)
+        if poisoned:
+            break  # the result list is shared between calls: everything after this point is meaningless
         if isinstance(msgs, list):
             msgs.append(POISON)  # the caller owns the returned list; a list shared between calls would hand this back later
         if states is not None:
